@@ -149,36 +149,62 @@ func runC08(c *Ctx) {
 		if _, f, ok := fieldOfAddr(fa); !ok || f != stateF {
 			return
 		}
-		nuse++
-		c.Evals++
-		key := fmt.Sprintf("state-use %s #%d", m.fnName(fn), nuse)
-		bad := ""
-		for _, r := range *fa.Referrers() {
-			switch u := r.(type) {
-			case *ssa.DebugRef:
-			case *ssa.Call:
-				cc := u.Common()
-				name, atomicOK := isAtomic(cc)
-				if (atomicOK || cc.StaticCallee() == arch) && len(cc.Args) > 0 && cc.Args[0] == ssa.Value(fa) {
-					_ = name
-					continue
+		// the uses of the address: directly, or through a private accessor of
+		// package sync that does nothing but return it (its call sites then are
+		// the uses)
+		var usesOf func(fn *ssa.Function, v ssa.Value, pos token.Pos, depth int)
+		usesOf = func(fn *ssa.Function, v ssa.Value, pos token.Pos, depth int) {
+			bad := ""
+			viaAccessor := false
+			for _, r := range *v.Referrers() {
+				switch u := r.(type) {
+				case *ssa.DebugRef:
+				case *ssa.Call:
+					cc := u.Common()
+					name, atomicOK := isAtomic(cc)
+					if (atomicOK || cc.StaticCallee() == arch) && len(cc.Args) > 0 && cc.Args[0] == v {
+						_ = name
+						continue
+					}
+					bad = "&l.state is passed to " + callName(cc) + ", which is neither a sync/atomic function nor archAcquireSpinlock"
+				case *ssa.Store:
+					if u.Addr == v {
+						bad = "plain (non-atomic) store to the lock word"
+					} else {
+						bad = "the address of the lock word is stored away"
+					}
+				case *ssa.UnOp:
+					if u.Op == token.MUL {
+						bad = "plain (non-atomic) load of the lock word"
+					}
+				case *ssa.Return:
+					if acc := u.Parent(); depth < 2 && acc.Pkg == pkg && acc.Object() != nil && !acc.Object().Exported() && len(u.Results) == 1 && len(acc.Blocks) == 1 {
+						sites := 0
+						m.eachInstr(func(caller *ssa.Function, in ssa.Instruction) {
+							if cl, ok := in.(*ssa.Call); ok && cl.Common().StaticCallee() == acc {
+								sites++
+								usesOf(caller, cl, cl.Pos(), depth+1)
+							}
+						})
+						if sites > 0 {
+							viaAccessor = true
+							continue
+						}
+					}
+					bad = "the address of the lock word escapes: " + r.String()
+				default:
+					bad = "the address of the lock word escapes: " + r.String()
 				}
-				bad = "&l.state is passed to " + callName(cc) + ", which is neither a sync/atomic function nor archAcquireSpinlock"
-			case *ssa.Store:
-				if u.Addr == ssa.Value(fa) {
-					bad = "plain (non-atomic) store to the lock word"
-				} else {
-					bad = "the address of the lock word is stored away"
-				}
-			case *ssa.UnOp:
-				if u.Op == token.MUL {
-					bad = "plain (non-atomic) load of the lock word"
-				}
-			default:
-				bad = "the address of the lock word escapes: " + r.String()
 			}
+			if viaAccessor && bad == "" {
+				return // judged at the accessor's call sites
+			}
+			nuse++
+			c.Evals++
+			key := fmt.Sprintf("state-use %s #%d", m.fnName(fn), nuse)
+			c.check(bad == "", "C08.R1", key, "&l.state passed directly to an atomic primitive", bad, m.pos(pos))
 		}
-		c.check(bad == "", "C08.R1", key, "&l.state passed directly to an atomic primitive", bad, m.pos(in.Pos()))
+		usesOf(fn, fa, in.Pos(), 0)
 	})
 	if nuse < 3 {
 		c.fail("C08.R1", "state-uses sync", fmt.Sprintf("only %d use(s) of Spinlock.state found (Acquire, TryToAcquire and Release must each use it)", nuse))
@@ -297,8 +323,8 @@ func runC08(c *Ctx) {
 		n := 0
 		for _, in := range g.Ins {
 			cc := callCommon(in)
-			if cc == nil {
-				continue
+			if cc == nil || m.helperOf(in) != nil {
+				continue // (a spliced private helper is its body, not a call)
 			}
 			n++
 			name, ok := isAtomic(cc)
@@ -318,8 +344,8 @@ func runC08(c *Ctx) {
 		n := 0
 		for _, in := range g.Ins {
 			cc := callCommon(in)
-			if cc == nil {
-				continue
+			if cc == nil || m.helperOf(in) != nil {
+				continue // (a spliced private helper is its body, not a call)
 			}
 			n++
 			if cc.StaticCallee() != arch || !stateArg(cc.Args[0], acquire) {
